@@ -595,6 +595,12 @@ def run(ctx, rep):
         rep.undecided('C07.I', 'shift::check_shift', '', str(u))
     # C07.P — forward / inverse maps do not write into their argument or into stored state (the inverse must return the input, and the wrapped parameter must keep its value)
     from sa import purity
+    rep.rule('C07.S', "log_abs_det_jacobian(x, y) depends on its arguments only: it reads nothing that _call / _inverse left on the transform")
+    check_stateless_log_det(ctx, rep)
+    from props import c11 as _c11
+    from sa.report import RuleProxy as _RP
+    _c11.check_memo_keys(ctx, _RP(rep, 'C07.C', 'memo::'), only=lambda m: m.name in ('torchtree.core.parameter', 'torchtree.evolution.tree_height_transform', 'torchtree.evolution.rate_transform',
+                                                                                    'torchtree.evolution.tree_model', 'torchtree.distributions.transforms'))
     rep.rule('C07.P', "the forward and inverse maps of the transforms do not modify their argument or stored state in place (indexed stores included): the value the caller holds is unchanged")
     TRANSFORM_MODULES = ('torchtree.evolution.tree_height_transform', 'torchtree.distributions.transforms', 'torchtree.evolution.rate_transform')
     n = purity.check_alias_mutation(ctx, rep, 'C07.P', lambda m, cname, fn: m.name in TRANSFORM_MODULES and cname is not None and fn.name in ('_call', '_inverse', 'log_abs_det_jacobian', '__call__'),
@@ -606,3 +612,37 @@ def run(ctx, rep):
     kinds = Kinds(ctx.classes)
     for q in ('torchtree.core.parameter.TransformedParameter', 'torchtree.evolution.tree_model.ReparameterizedTimeTreeModel'):
         c11.check_handlers(ctx, RuleProxy(rep, 'C07.C', 'handlers::'), kinds, ctx.classes.get(q))
+
+
+def check_stateless_log_det(ctx, rep):
+    """C07.S — log_abs_det_jacobian(x, y) is a function of its arguments.  A transform that leaves something on itself in _call / _inverse and hands it back from
+    log_abs_det_jacobian reports the determinant of whatever point was transformed LAST: with one transform object shared by two parameters, with `.inv`, or with forward calls at
+    several points before their determinants are asked for, the value belongs to another point."""
+    base = 'torch.distributions.Transform'
+    n = 0
+    for cls in sorted(ctx.classes.classes.values(), key=lambda c: c.qualname):
+        if not any(isinstance(b, str) and b.endswith('Transform') for b in cls.mro) and not cls.has_base(base):
+            continue
+        r = cls.resolve('log_abs_det_jacobian')
+        if r is None or r[0] is not cls:
+            continue
+        ld = r[1]
+        written = {}
+        for mname in ('_call', '_inverse', '__call__', 'forward'):
+            rm = cls.resolve(mname)
+            if rm is None:
+                continue
+            for st in ast.walk(rm[1]):
+                if isinstance(st, (ast.Assign, ast.AugAssign)):
+                    for t in (st.targets if isinstance(st, ast.Assign) else [st.target]):
+                        a = self_attr(t)
+                        if a:
+                            written.setdefault(a, mname)
+        reads = {self_attr(x) for x in ast.walk(ld) if isinstance(x, ast.Attribute) and isinstance(x.ctx, ast.Load) and self_attr(x)}
+        shared = sorted(reads & set(written))
+        n += 1
+        rep.check('C07.S', f"{cls.qualname}::log-determinant-is-a-function-of-its-arguments", not shared, where(cls.module, ld), {'left_by_the_maps_and_read_back': shared},
+                  f"{cls.name}.log_abs_det_jacobian reads {['self.' + a for a in shared]}, which {cls.name}.{written[shared[0]] if shared else ''} stores while transforming: the value "
+                  f"returned is the determinant at the point transformed last, not at the (x, y) it is asked for")
+    if n < 8:
+        rep.incomplete('C07.S', '*', '', f"only {n} transforms with a log-determinant found")
